@@ -256,6 +256,66 @@ def _toy_scalar_task(task):
     return acc
 
 
+class FalsyScript(T.Script):
+    """an entropy function that is a perfectly good callable but falsy (an empty pool object with __len__ == 0)"""
+
+    def __len__(self):
+        return 0
+
+
+def _neighbours_task(task):
+    """candidates that differ from q in exactly two 16-bit words / bytes: q with unit i raised and unit j lowered (i < j, must be
+    rejected: it is >= q) and lowered-then-raised (must be accepted)"""
+    name, unit = task
+    acc = Acc()
+    inst, why = T.try_get(name)
+    if inst is None or inst.ref.kind != "int":
+        return acc
+    R, g, q = inst.ref, inst.group, inst.q
+    k = R.ssize
+    nunits = (8 * k) // unit
+    mask_bits = q.bit_length()
+    n = 0
+    for i in range(nunits):
+        for j in range(i + 1, nunits):
+            si, sj = unit * (nunits - 1 - i), unit * (nunits - 1 - j)
+            for c in (q + (1 << si) - (1 << sj), q - (1 << si) + (1 << sj)):
+                if not (0 <= c < (1 << mask_bits)):
+                    continue
+                st = [c.to_bytes(k, "big"), (7).to_bytes(k, "big")]
+                sc = T.Script(list(st))
+                got = T.observe(g.random_scalar, sc)
+                want, draws = ref_scalar(R, st)
+                n += 1
+                if got != ("ok", want) or sc.calls != [k] * draws:
+                    acc.violation("C11/%s/random_scalar" % name, {"what": "random_scalar differs from the reference sampler for a candidate that differs from q in two %d-bit units" % unit,
+                                  "replay": {"fn": "random_scalar", "inst": inst.desc, "answers": list(st)}, "expected": [want, [k] * draws], "observed": [got, sc.calls]})
+    acc.n(states=n, transitions=n, traces=1)
+    acc.seen((name, "neighbours", unit))
+    return acc
+
+
+def _falsy_task(task):
+    name, side = task
+    acc = Acc()
+    inst, why = T.try_get(name)
+    if inst is None:
+        return acc
+    R = inst.ref
+    for x in (3 % inst.q, 0):
+        ent = FalsyScript(R.entropy_for_scalar(x))
+        s = inst.new(side, b"pw", C.ids_for(side, 1), entropy=ent)
+        m = T.observe(s.start)
+        xo = T.read_scalar(inst, s) if m[0] == "ok" else None
+        acc.n(states=1, transitions=2)
+        if m[0] != "ok" or xo != x or len(ent.calls) != 1:
+            acc.violation("C11/%s/falsy-entropy-function" % (inst.kind if inst.small else inst.name),
+                          {"what": "a supplied entropy function that is falsy (an object with __len__ == 0) is not the source of the scalar",
+                           "replay": {"fn": "falsy", "inst": inst.desc, "side": side, "x": x}, "expected": [x, 1], "observed": [m[0], xo, len(ent.calls)]})
+    acc.seen((name, side, "falsy"))
+    return acc
+
+
 def _ledger_task(task):
     """entropy is requested by start() only"""
     name, side = task
@@ -280,9 +340,9 @@ def _ledger_task(task):
         w = R.pw_scalar(b"pw")
         for kind, d in C.inbound_menu(inst, side, w, x)[:4]:
             import copy
-            T.observe(copy.copy(s).finish, d)
+            T.observe(T.snapshot(s).finish, d)
             if r[0] == "ok":
-                got = T.observe(copy.copy(r[1]).finish, d)
+                got = T.observe(T.snapshot(r[1]).finish, d)
                 if got == ("exc", "NotImplementedError") or got == ("exc", "EntropyExhausted"):
                     acc.violation("C11/%s/restored-instance-draws-entropy" % F, {"what": "finish() on a restored instance asks for entropy",
                                   "replay": {"fn": "ledger", "inst": inst.desc, "side": side, "x": x}, "expected": "no request", "observed": got})
@@ -297,9 +357,40 @@ def _ledger_task(task):
     return acc
 
 
+PREBUILT = {}
+
+
+def _prefork_task(task):
+    """the instance was constructed in the parent process and is started here, in a forked child: the scalar must still be the one
+    the supplied entropy function defines"""
+    key, = task
+    acc = Acc()
+    name, side, x = key
+    s, ent = PREBUILT[key]
+    inst = T.get(name)
+    m = T.observe(s.start)
+    xo = T.read_scalar(inst, s) if m[0] == "ok" else None
+    acc.n(states=1, transitions=2, traces=1)
+    if m[0] != "ok" or xo != x or len(ent.calls) != 1:
+        acc.violation("C11/%s/constructed-before-fork" % (inst.kind if inst.small else inst.name),
+                      {"what": "an instance constructed in one process and started in a forked child does not take its scalar (only) from the supplied entropy function",
+                       "replay": {"fn": "prefork", "inst": inst.desc, "side": side, "x": x}, "expected": [x, 1], "observed": [m[0], xo, len(ent.calls)]})
+    acc.seen((name, side, "prefork"))
+    return acc
+
+
 def run(tier, seed):
     acc = Acc()
     quick = tier == "quick"
+    PREBUILT.clear()
+    for name in ("T23", "ParamsEd25519", "Params1024"):
+        inst, why = T.try_get(name)
+        if inst is None:
+            continue
+        for side in "ABS":
+            x = 5 % inst.q
+            ent = inst.entropy(x)
+            PREBUILT[(name, side, x)] = (inst.new(side, b"pw", C.ids_for(side, 1), entropy=ent), ent)
     tasks = []
     redraw = set(REDRAW_QUICK if quick else range(1, 257))
     deep = {3, 6, 7} if quick else set(range(1, 17))
@@ -322,7 +413,15 @@ def run(tier, seed):
     for name in ["T23", "E37"] + T.SHIPPED:
         for side in "ABS":
             tasks.append(("ledger", (name, side)))
-    w = {"width": 1, "shipped": 3000, "toy": 1500, "ledger": 2000}
+    for key in sorted(PREBUILT):
+        tasks.append(("prefork", (key,)))
+    for name in ("Params1024", "Params2048", "Params3072"):
+        for unit in (16, 8):
+            tasks.append(("nb", (name, unit)))
+    for name in ["T23", "ParamsEd25519", "Params1024"]:
+        for side in "ABS":
+            tasks.append(("falsy", (name, side)))
+    w = {"width": 1, "shipped": 3000, "toy": 1500, "ledger": 2000, "nb": 2500, "falsy": 500, "prefork": 400}
     def cost(t):
         if t[0] != "width":
             return w[t[0]]
@@ -336,7 +435,8 @@ def run(tier, seed):
 
 
 def _dispatch(t):
-    return {"width": _width_task, "shipped": _shipped_task, "toy": _toy_scalar_task, "ledger": _ledger_task}[t[0]](t[1])
+    return {"width": _width_task, "shipped": _shipped_task, "toy": _toy_scalar_task, "ledger": _ledger_task, "nb": _neighbours_task,
+            "falsy": _falsy_task, "prefork": _prefork_task}[t[0]](t[1])
 
 
 def replay(rec):
@@ -351,6 +451,12 @@ def replay(rec):
         return got[1] if got[0] == "ok" else ("another draw" if got[1] == "EntropyExhausted" else got)
     if fn == "randrange-count":
         return "re-run the check: counting oracle over the complete first draw"
+    if fn == "falsy":
+        inst = T.build_inst(r["inst"])
+        ent = FalsyScript(inst.ref.entropy_for_scalar(r["x"]))
+        s = inst.new(r["side"], b"pw", C.ids_for(r["side"], 1), entropy=ent)
+        m = T.observe(s.start)
+        return [m[0], T.read_scalar(inst, s) if m[0] == "ok" else None, len(ent.calls)]
     if fn in ("random_scalar", "session"):
         inst = T.build_inst(r["inst"])
         sc = T.Script(list(r["answers"]))
